@@ -410,7 +410,10 @@ def scenarios(tier, seed, routine=None):
         dict(base, label="A", script=[(3, "term"), (1, "trunc"), (2, "both"), (4, "term"), (1, "term")], budget=26, start=0, eplimit=0, warm=6),
         # scenario B runs with the boundary seed 0 (a falsy seed must still be a seed); more than one gradient step per
         # environment step where the routine has such a parameter (every single update follows the configured rule)
-        dict(base, label="B", script=[(2, "trunc"), (3, "term"), (1, "both")], budget=17, start=3, eplimit=0, warm=5, seed=0, gsteps=2),
+        dict(base, label="B", script=[(2, "trunc"), (3, "term"), (1, "both")], budget=17, start=3, eplimit=0, warm=5, seed=0, gsteps=2,
+             # a different action box of the same shape and dtype than in scenario A (what one run derives from its
+             # action space must not serve the next run in the process), active covariance update for CMA-ES
+             low=(-0.5, 0.25), high=(0.75, 1.5), cma_active=True),
         # scenario C: the action space is declared with dtype float64 (continuous routines); exploration noise level 0
         # (the environment receives exactly the live policy's action after the warm-up)
         dict(base, label="C", script=[(4, "both"), (2, "trunc"), (3, "term")], budget=30, start=0, eplimit=4, warm=4, act_dtype="float64", expl_noise=0.0),
